@@ -156,8 +156,16 @@ def boundary(cnt, cls):
 
 def gen_script(rng, model, cls, libsizes, deep, budget):
     """One script. `deep`: how many growths of the chunk list to cross (0, 1, 2, 3); `budget`: max allocations."""
-    profile = rng.choice(["ramp", "ramp", "churn", "sawtooth"])
+    # deep scripts must actually get there: no random walk around a fixed level
+    profile = rng.choice(["ramp", "ramp", "churn", "sawtooth"]) if deep == 0 else rng.choice(["ramp", "ramp", "ramp", "sawtooth"])
     kind = rng.choice(["dyn", "dyn", "static", "lib"]) if libsizes else rng.choice(["dyn", "dyn", "static"])
+    if kind == "lib" and deep > 0:
+        fits = [n for n, (sz_, num_) in libsizes.items()
+                if ((((num_ * sz_ + PAGE - 1) // PAGE) * PAGE) // sz_) * (deep * cls + 3) <= budget]
+        if not fits:
+            kind = "static"
+        else:
+            libsizes = {n: libsizes[n] for n in fits}
     if kind == "lib":
         name = rng.choice(sorted(libsizes))
         sz, num = libsizes[name]
@@ -179,7 +187,7 @@ def gen_script(rng, model, cls, libsizes, deep, budget):
     g = Gen(rng, model)
     g.do("page %d" % PAGE)
     g.do(init)
-    p_free = {"ramp": rng.choice([0.0, 0.05, 0.2, 0.35]), "churn": 0.47, "sawtooth": 0.02}[profile]
+    p_free = {"ramp": rng.choice([0.0, 0.05, 0.2, 0.35] if deep == 0 else [0.0, 0.03, 0.1]), "churn": 0.47, "sawtooth": 0.02}[profile]
     p_write = rng.choice([0.0, 0.05, 0.15])
     danced = set()
     steps = 0
@@ -245,7 +253,7 @@ def gen_script(rng, model, cls, libsizes, deep, budget):
             g.do("end")
     st = {"profile": profile, "kind": kind, "obj_sz": sz, "obj_num": num, "per_chunk": g.num, "chunks": g.cnt,
           "ops": len(g.lines), "allocs": g.nalloc, "reuse": g.reuse, "expands": g.expands, "max_live": g.max_live,
-          "list_growths": g.cnt // cls, "model_fault": g.faulted}
+          "list_growths": g.cnt // cls, "model_fault": g.faulted, "reached": g.cnt >= want_chunks}
     return g.lines, g.answers, st
 
 
@@ -259,6 +267,15 @@ SAN_RE = re.compile(r"ERROR: AddressSanitizer|ERROR: LeakSanitizer|runtime error
 def run_impl(c_exe, lines, timeout=600):
     rc, o, e = vlib.run_driver(c_exe, "\n".join(lines) + "\n", timeout=timeout)
     return rc, o.splitlines(), e
+
+
+def err_excerpt(err, n=14):
+    """the informative part of a driver's stderr: head of a sanitizer report, else the tail"""
+    ls = err.strip().splitlines()
+    for i, l in enumerate(ls):
+        if SAN_RE.search(l):
+            return [re.sub(r"==\d+==", "", x) for x in ls[i:i + n]]
+    return ls[-n:]
 
 
 def strip_property(out):
@@ -277,7 +294,9 @@ def verdict(rc, out, err):
     if m:
         first = [l for l in err.splitlines() if SAN_RE.search(l)][0]
         where = [l.strip() for l in err.splitlines() if "cmi_mempool" in l][:1]
-        return "sanitizer report: %s %s" % (first.strip()[:200], where[0] if where else "")
+        first = re.sub(r"==\d+==", "", first)
+        first = re.sub(r" on address 0x[0-9a-f]+.*$", "", first)
+        return "sanitizer report: %s %s" % (first.strip()[:200], re.sub(r"0x[0-9a-f]+ ", "", where[0]) if where else "")
     if rc < 0 or rc in (134, 139, 136, 138):
         sig = -rc if rc < 0 else rc - 128
         return "the pool crashed the process (signal %d) after %d operations%s" % (
@@ -360,13 +379,25 @@ def shrink(c_exe, lines, budget=120):
         return lines
     tries = 0
     # 1. everything that is not an allocation is usually irrelevant: try dropping all of it at once, then kinds
-    for pred in (lambda o: o[0] == "a", lambda o: o[0] in ("a", "f"), lambda o: o[0] != "x"):
+    for pred in (lambda o: o[0] == "a", lambda o: o[0] in ("a", "x"), lambda o: o[0] in ("a", "f"),
+                 lambda o: o[0] in ("a", "f", "x")):
         cand = [o for o in ops if pred(o)]
         tries += 1
         if len(cand) < len(ops) and bad(cand):
             ops = cand
             break
-    # 2. cut the tail, then delta-debug
+    # 2. shortest failing prefix (bisection; the failure is at a definite operation)
+    lo, hi = 1, len(ops)
+    while lo < hi and tries < budget:
+        mid = (lo + hi) // 2
+        tries += 1
+        if bad(ops[:mid]):
+            hi = mid
+        else:
+            lo = mid + 1
+    if hi < len(ops) and bad(ops[:hi]):
+        ops = ops[:hi]
+    # 3. delta-debug what is left
     n = 2
     while len(ops) > 1 and tries < budget:
         chunk = max(1, len(ops) // n)
